@@ -119,6 +119,23 @@ CHECKS["C12"] = dict(
     technique="TLA+ spec (CompressDesign) model-checked with TLC incl. liveness; every TLC terminal state replayed with "
               "fault injection into typhon.files.compress/decompress")
 
+CHECKS["C15"] = dict(
+    text="CacheDesign.tla models the cache file, its .backup sibling and the in-memory cache under touch, the four steps of "
+         "save_cache (open/truncate backup, write, close, rename), a Crash enabled between any two steps, corruption by an "
+         "adversary and Restart; TLC checks MainComplete (the saved file is never a partial or mixed document), LoadOK and "
+         "RoundTrip over all histories of the bound and prints every history ending in a restart; each is replayed on real "
+         "FileSet objects with the crash raised as a BaseException at exactly that step (k-th write of the backup, before "
+         "the rename), six corruption variants, two entry catalogues (microseconds / years 1000 and 9999; non-temporal "
+         "datetime.min/max) and a truncation sweep over every byte; find() with the loaded cache is compared with find() "
+         "without.",
+    ref="DESIGN.md §5 C15",
+    note="Trusted: TLC, CacheDesign (~100 lines), the crash injectors (module-level open/shutil/atexit of "
+         "typhon.files.fileset; the evidence says if a crash point could not be reached). A crash is emulated by an "
+         "exception that leaves a flushed prefix in the backup; the rename is assumed atomic (POSIX rename on one file "
+         "system).",
+    technique="TLA+ spec (CacheDesign) model-checked with TLC over all crash points; every TLC history replayed with crash "
+              "injection into FileSet.save_cache/load_cache")
+
 NOT_APPLICABLE = {
     "C07": "Every clause concerns floating-point accuracy of sin/cos/arctan2/sqrt compositions or convergence of a "
            "fixed-point iteration over a continuous domain; TLA+/TLC has no reals or transcendental functions and there "
